@@ -73,7 +73,8 @@ def main():
         out = os.path.join("/verif/seeded", name)
         os.makedirs(out, exist_ok=True)
         for f in ("patch.diff", "demo.py", "notes.md"):
-            if os.path.exists(os.path.join(src, f)):
+            if os.path.exists(os.path.join(src, f)) and \
+                    os.path.abspath(src) != os.path.abspath(out):
                 shutil.copy(os.path.join(src, f), os.path.join(out, f))
         with open(os.path.join(out, "meta.json"), "w") as f:
             json.dump(meta, f, indent=1)
